@@ -29,7 +29,7 @@ package c07
 //
 // Cases: before every step two requests are sent (and judged with the reference of the configuration in force THEN;
 // they are delivered after all steps like every other message); after the last step the reduced header sweep: header
-// sets {none, sensitive + entity, repeated name} (thorough: more) x framing x body sizes around every limit of EVERY
+// sets {none, sensitive + entity, repeated name} (thorough: see chgHeaderSets) x framing x body sizes around every limit of EVERY
 // configuration of the history (a stale limit shows at the old boundary) x credentials. All of it through the ordinary
 // flows (admin list, pull HTTP / gRPC, push, nack, redelivery, SQLite close + reopen from the file on disk).
 //
@@ -405,12 +405,17 @@ func (k *chgKind) describe() string {
 
 // ---------------------------------------------------------------- cases
 
-func chgHeaderSets(thorough bool) []lset {
-	out := []lset{mkSet(), mkSet("3", "ce"), mkSet("0", "1")}
-	if thorough {
-		out = append(out, mkSet("0"), mkSet("ce", "ct"), mkSet("ct", "ce", "ex", "0", "3", "cl2"))
+// chgHeaderSets: no header; a sensitive header + an entity header; a repeated name (comma join). The grouped families of
+// the thorough tier: the last two in one set. The other histories in the thorough tier: also the mixed set of the
+// layers sweep.
+func chgHeaderSets(thorough, grouped bool) []lset {
+	switch {
+	case grouped:
+		return []lset{mkSet(), mkSet("3", "ce", "0", "1")}
+	case thorough:
+		return []lset{mkSet(), mkSet("3", "ce"), mkSet("0", "1"), mkSet("ct", "ce", "ex", "0", "3", "cl2")}
 	}
-	return out
+	return []lset{mkSet(), mkSet("3", "ce"), mkSet("0", "1")}
 }
 
 // sizes: the body sizes around every limit of every configuration of the history.
@@ -452,7 +457,7 @@ func (k *chgKind) cases(thorough bool) []mcase {
 	}
 	route := k.route()
 	ly := layerOf(route)
-	for _, hs := range chgHeaderSets(thorough && (k.family == "m" || (k.family == "x" && len(k.steps) == 2))) {
+	for _, hs := range chgHeaderSets(thorough, k.grouped()) {
 		frames := []string{"cl", "chunked"}
 		if hs.label == "none" {
 			frames = append(frames, frameTrailer)
